@@ -109,6 +109,66 @@ func discharge(sc *Script, ob *Obligation, timeoutS int, dir string, all bool) {
 	if ob.Status != "" {
 		return
 	}
+	splittable := len(sc.caseTerms) > 0 && ob.Case == "" && ob.Kind != "canary" && ob.Kind != "cases"
+	if !splittable || all || timeoutS <= 25 {
+		dischargeCore(sc, ob, timeoutS, dir, all, true, true)
+		return
+	}
+	// functions with a case split: a short attempt on the whole obligation, then the cases, then the long attempt
+	t0 := time.Now()
+	dischargeCore(sc, ob, 20, dir, false, true, false)
+	if ob.Status == "unsat" || ob.Status == "sat" {
+		return
+	}
+	note := ob.Output
+	ob.Status = ""
+	if splitCases(sc, ob, timeoutS, dir) {
+		ob.TimeS = time.Since(t0).Seconds()
+		ob.Output = note + "; " + ob.Output
+		return
+	}
+	if ob.Status == "sat" {
+		return
+	}
+	note += "; " + ob.Output
+	ob.Status = ""
+	dischargeCore(sc, ob, timeoutS, dir, false, false, false)
+	ob.TimeS = time.Since(t0).Seconds()
+	ob.Output = note + "; " + ob.Output
+}
+
+// splitCases decides an obligation under each case condition of the contract; true if every case is unsat.
+func splitCases(sc *Script, ob *Obligation, timeoutS int, dir string) bool {
+	allUnsat := true
+	var subNotes []string
+	for i, ct := range sc.caseTerms {
+		sub := *ob
+		sub.Status, sub.Solver, sub.Output, sub.Model = "", "", "", ""
+		sub.Case = fmt.Sprint(i + 1)
+		sub.Guard = sAnd(ob.Guard, ct)
+		dischargeCore(sc, &sub, timeoutS, dir, false, true, false)
+		subNotes = append(subNotes, fmt.Sprintf("case %d: %s (%.2fs)", i+1, sub.Status, sub.TimeS))
+		if sub.Status != "unsat" {
+			allUnsat = false
+			if sub.Status == "sat" {
+				ob.Status, ob.Solver, ob.Model = "sat", sub.Solver, sub.Model
+			}
+			break
+		}
+	}
+	ob.Output = "case split: " + strings.Join(subNotes, ", ")
+	if allUnsat {
+		ob.Status, ob.Solver = "unsat", "case-split"
+	} else if ob.Status == "" {
+		ob.Status = "unknown"
+	}
+	return allUnsat
+}
+
+func dischargeCore(sc *Script, ob *Obligation, timeoutS int, dir string, all bool, qf bool, split bool) {
+	if ob.Status != "" {
+		return
+	}
 	ctx, cancel := context.WithCancel(context.Background())
 	defer cancel()
 	answers := make(chan solverAnswer, len(solvers))
@@ -122,7 +182,7 @@ func discharge(sc *Script, ob *Obligation, timeoutS int, dir string, all bool) {
 	ob.Bytes = len(sc.render(ob, "", false))
 	t0 := time.Now()
 	// first pass: quantifier-free facts only (guard chaining, frames over named versions, opaque-atom relations)
-	if !all && ob.Kind != "canary" {
+	if qf && !all && ob.Kind != "canary" {
 		qt := 4
 		if timeoutS < qt {
 			qt = timeoutS
@@ -190,29 +250,12 @@ func discharge(sc *Script, ob *Obligation, timeoutS int, dir string, all bool) {
 	}
 	ob.Output = strings.Join(notes, "; ")
 	// undecided as a whole: retry under each case condition of the contract (exhaustiveness is a separate obligation)
-	if ob.Status == "unknown" && len(sc.caseTerms) > 0 && ob.Case == "" && ob.Kind != "canary" && ob.Kind != "cases" {
-		allUnsat := true
-		var subNotes []string
-		for i, ct := range sc.caseTerms {
-			sub := *ob
-			sub.Status, sub.Solver, sub.Output, sub.Model = "", "", "", ""
-			sub.Case = fmt.Sprint(i + 1)
-			sub.Guard = sAnd(ob.Guard, ct)
-			discharge(sc, &sub, timeoutS, dir, false)
-			subNotes = append(subNotes, fmt.Sprintf("case %d: %s (%.2fs)", i+1, sub.Status, sub.TimeS))
-			if sub.Status != "unsat" {
-				allUnsat = false
-				if sub.Status == "sat" {
-					ob.Status, ob.Solver, ob.Model = "sat", sub.Solver, sub.Model
-				}
-				break
-			}
-		}
+	if split && ob.Status == "unknown" && len(sc.caseTerms) > 0 && ob.Case == "" && ob.Kind != "canary" && ob.Kind != "cases" {
+		note := ob.Output
+		ob.Status = ""
+		splitCases(sc, ob, timeoutS, dir)
 		ob.TimeS = time.Since(t0).Seconds()
-		ob.Output += "; case split: " + strings.Join(subNotes, ", ")
-		if allUnsat {
-			ob.Status, ob.Solver = "unsat", "case-split"
-		}
+		ob.Output = note + "; " + ob.Output
 	}
 }
 
